@@ -135,6 +135,8 @@ impl Server {
         let batch_size = config.batch_size();
         let thread_name = thread::current().name().unwrap().to_string();
         let poll_duration = Some(Duration::from_millis(100));
+        #[cfg(roughenough_verif)]
+        let poll_duration = crate::verif::poll_override().map(Some).unwrap_or(poll_duration);
         let srv_value = long_term_key.srv_value().to_vec();
 
         Server {
@@ -179,6 +181,9 @@ impl Server {
             .poll(events, self.poll_duration)
             .expect("server event poll failed; cannot recover");
 
+        #[cfg(roughenough_verif)]
+        crate::verif::point("polled", events.iter().count() as i64);
+
         for msg in events.iter() {
             match msg.token() {
                 EVT_MESSAGE => loop {
@@ -187,8 +192,14 @@ impl Server {
 
                     let socket_now_empty = self.collect_requests();
 
+                    #[cfg(roughenough_verif)]
+                    crate::verif::point("collected", socket_now_empty as i64);
+
                     self.responder_ietf.send_responses(&mut self.socket, &mut self.stats_recorder);
                     self.responder_classic.send_responses(&mut self.socket, &mut self.stats_recorder);
+
+                    #[cfg(roughenough_verif)]
+                    crate::verif::point("sent", 0);
 
                     if socket_now_empty {
                         break;
@@ -296,6 +307,18 @@ impl Server {
 
     pub fn thread_name(&self) -> &str {
         &self.thread_name
+    }
+
+    /// Read-only view of this server's statistics recorder
+    #[cfg(roughenough_verif)]
+    pub fn verif_stats(&self) -> &dyn ServerStats {
+        self.stats_recorder.as_ref()
+    }
+
+    /// Run the periodic statistics hand-off now (what the status timer does)
+    #[cfg(roughenough_verif)]
+    pub fn verif_send_client_stats(&mut self) {
+        self.send_client_stats()
     }
 
     fn compute_delay(base: Duration) -> Duration {
